@@ -129,9 +129,21 @@ def main(prop, gen, run, *, driver, rule, trusted_base=(), assumptions=(), spec=
             # the implementation handed back NaN/inf where a number was expected: that is an observation about the code
             res = {"req": None, "impl": None, "kind": kind + "-nonfinite", "sig": f"nonfinite:{base_kind}",
                    "oracle": {"ok": False, "detail": f"the real code produced a {e} on input {str(inp)[:300]}"}}
-        except Exception:  # a crash of the harness is not a verdict about the code
-            sys.stderr.write(f"harness error on input {inp!r}\n{traceback.format_exc()}\n")
-            sys.exit(3)
+        except Exception as e:  # noqa: BLE001
+            # where was it raised?  If the innermost frames are the real package (or a library it called) with no harness frame
+            # below them, the implementation raised on an input that the unchanged tree accepts (every check is green there): that
+            # is an observation about the code.  Anything raised by harness code itself is a harness crash, never a verdict.
+            frames = traceback.extract_tb(e.__traceback__)
+            here = str(Path(__file__).resolve().parent)
+            last_harness = max((k for k, f in enumerate(frames) if f.filename.startswith(here)), default=-1)
+            last_code = max((k for k, f in enumerate(frames) if "/mqt/yaqs/" in f.filename), default=-1)
+            if last_code > last_harness:
+                where = f"{frames[last_code].filename.split('/mqt/yaqs/')[-1]}:{frames[last_code].lineno}"
+                res = {"req": None, "impl": None, "kind": kind + "-raised", "sig": f"raised:{base_kind}:{type(e).__name__}:{where}",
+                       "oracle": {"ok": False, "detail": f"the real code raised {type(e).__name__}: {str(e)[:200]} at {where} on input {str(inp)[:300]}"}}
+            else:
+                sys.stderr.write(f"harness error on input {inp!r}\n{traceback.format_exc()}\n")
+                sys.exit(3)
         many = res if isinstance(res, list) else [res]
         for j, r in enumerate(many):
             r = dict(r)
